@@ -27,10 +27,12 @@ HdrP(id, alg) ==
     [] id = 4 -> <<<<GoInt("int64", 1), AlgV(alg)>>, KidN(17), <<GoStr(<<120, 121>>), NestedMap>>, <<GoNeg("int16", 300), GoInt("uint16", 65535)>>>>
     [] id = 5 -> <<<<GoInt("int64", 1), AlgV(alg)>>, KidN(249)>>                \* protected map of exactly 255 bytes
     [] id = 6 -> <<<<GoInt("int64", 1), AlgV(alg)>>, KidN(250)>>                \* 256 bytes
+    [] id = 7 -> <<<<GoInt("int64", 1), AlgV(alg)>>>> \o [i \in 1..30 |-> <<(IF i % 2 = 0 THEN GoInt("int16", 100 + i) ELSE GoNeg("int64", 200 + i)), GoInt("int64", i)>>]   \* dozens of entries
 HdrU(id) ==
   CASE id \in {1, 2, 5} -> <<>>
     [] id = 3 -> <<<<GoInt("int64", 5), GoBytes(<<1, 2, 3>>)>>, <<GoStr(<<117>>), NestedMap>>>>
     [] id \in {4, 6} -> <<<<GoInt("int64", 4), GoBytes(<<49>>)>>>>
+    [] id = 7 -> [i \in 1..26 |-> <<GoStr(<<97 + (i % 26), 48 + (i % 10)>>), GoBytes(<<i>>)>>]
 
 Payload(n) == IF n <= 300 THEN [i \in 1..n |-> (i * 7) % 256] ELSE <<0 - 2, n \div 65536, (n \div 256) % 256, n % 256>>   \* token: harness expands
 Exts == { [ext |-> <<>>, extnil |-> TRUE, extempty |-> FALSE], [ext |-> <<>>, extnil |-> FALSE, extempty |-> TRUE], [ext |-> <<9, 8, 7>>, extnil |-> FALSE, extempty |-> FALSE] }
